@@ -136,6 +136,50 @@ func (ex *Exec) concretize(t *Term, what string, signed bool) int64 {
 // replay deterministic the smallest unsigned value is searched by bisection-free
 // approach: ask for a model and then minimise greedily bit by bit.
 func (ex *Exec) modelForTerm(t *Term) (SatResult, uint64) {
+	// a pick recorded while this prefix was first explored
+	if i := len(ex.takenVals); i < len(ex.prefixVals) && len(ex.taken) < len(ex.prefix) {
+		ex.takenVals = append(ex.takenVals, ex.prefixVals[i])
+		return Sat, ex.prefixVals[i]
+	}
+	r, v := ex.minValue(t)
+	if r == Sat {
+		ex.takenVals = append(ex.takenVals, v)
+	}
+	return r, v
+}
+
+// minValue returns the smallest unsigned value t can take under the path
+// condition. With a model at hand its value of t is an upper bound and the
+// minimum is found by bisection below it (no query at all when the model says 0).
+func (ex *Exec) minValue(t *Term) (SatResult, uint64) {
+	ex.ensureModel()
+	if ex.model != nil {
+		ok := true
+		var hi uint64
+		func() {
+			defer func() {
+				if recover() != nil {
+					ok = false
+				}
+			}()
+			hi = evalTerm(t, ex.model)
+		}()
+		if ok {
+			lo := uint64(0)
+			for lo < hi {
+				mid := lo + (hi-lo)/2
+				switch ex.check(ex.ts.Cmp(OpULe, t, K(t.W, mid))) {
+				case Sat:
+					hi = mid
+				case Unsat:
+					lo = mid + 1
+				default:
+					return Unknown, 0
+				}
+			}
+			return Sat, lo
+		}
+	}
 	// minimal value: for each bit from the top, try to force it to zero.
 	if ex.check(nil) != Sat {
 		return Unsat, 0
